@@ -446,12 +446,17 @@ func oracle(st *Stats, idx int, k *kase) {
 		if r.owner == "" || r.owner[0] != 'c' || r.endCmd < 1 || r.endCmd > len(k.snaps) {
 			continue
 		}
-		before := k.snaps[r.endCmd-1]
-		if r.ok && inDisc(before, false) {
-			e1 = true // a caller's round succeeded while the old reader stood between D1 and D6
-		}
-		if !r.ok && strings.Contains(firstN(r.offered, r.attempts), "j") && inDisc(before, true) {
-			e3 = true // a caller's round was exhausted after a rejected hook had replaced the connection
+		// any quiet moment from just before the round began to just before it ended
+		for j := r.startCmd - 1; j <= r.endCmd-1 && j < len(k.snaps); j++ {
+			if j < 0 {
+				continue
+			}
+			if r.ok && inDisc(k.snaps[j], false) {
+				e1 = true // a caller's round succeeded while the old reader stood between D1 and D6
+			}
+			if !r.ok && strings.Contains(firstN(r.offered, r.attempts), "j") && inDisc(k.snaps[j], true) {
+				e3 = true // a caller's round was exhausted after a rejected hook had replaced the connection
+			}
 		}
 	}
 	for i, c := range k.cmds {
